@@ -3,7 +3,7 @@
    carried from line to line; every recorded step must be a transition the specification allows from the state
    the specification itself computed.  One verdict per line (same format as Judge); after a rejected line the
    state is re-synchronised from the recorded one so that the rest of the trace is still examined. *)
-EXTENDS CnlMachine, TLC, TLCExt, Json, IOUtils
+EXTENDS CnlMachine, AsCodedRConv, TLC, TLCExt, Json, IOUtils
 
 Tr == ndJsonDeserialize(IOEnv.TRACE)
 Insts == ndJsonDeserialize(IOEnv.INSTS)
@@ -99,7 +99,14 @@ Verdict(e, menu) ==
 \*  * the scaling is computed in the integer's own 64-bit type under the destination's overflow tag (the C04 finding
 \*    SCALED-CONV-SCALES-IN-SOURCE-REP): a finer destination that could hold the value reports an overflow.
 AsCodedM(e, menu) ==
-    IF e.e # "StFromInt" THEN FALSE
+    IF e.e = "StFromFlt" THEN
+        \* tie_to_pos_inf construction of an integer-valued type from a double is floor(x + 0.5) with the sum rounded
+        \* to double (the C09 finding RCONV-FLOAT-BIAS-ROUNDS seen through static_integer)
+        LET td == menu[e.d]  f == e.x
+            v == FloatToInt("tie_to_pos_inf", FVal(f), 53, 64, IntT(128, 1))
+        IN RoundingOf(td) = "tie_to_pos_inf" /\ TExp(td) = 0 /\ f.c = "fin" /\ ~v.ub /\ e.out = "ok" /\ J(e.after) = v.v
+           /\ Le(Abs(v.v), TMaxRaw(td))
+    ELSE IF e.e # "StFromInt" THEN FALSE
     ELSE LET td == menu[e.d]  kv == J(e.v)  ex == TExp(td) IN
          IF ex > 0 THEN
              LET tr == TruncDiv(kv, Pow2(ex)) IN e.out = "ok" /\ J(e.after) = tr /\ Le(Abs(tr), TMaxRaw(td))
